@@ -298,7 +298,20 @@ fn main() -> Result<()> {
             };
 
             let output_bin = matches!(output_format, CompilationTargets::Binary);
-            compile(&path, output_bin, !quick, true, false)?;
+
+            // The parser and the passes over the syntax tree recurse once per nesting level and once
+            // per term of an operator chain; give them far more room than the main thread's stack.
+            const COMPILER_STACK_SIZE: usize = 512 * 1024 * 1024;
+
+            let compiler_thread = thread::Builder::new()
+                .name("mscript-compiler".into())
+                .stack_size(COMPILER_STACK_SIZE)
+                .spawn(move || compile(&path, output_bin, !quick, true, false).map(|_| ()))?;
+
+            match compiler_thread.join() {
+                Ok(result) => result?,
+                Err(panic) => std::panic::resume_unwind(panic),
+            }
         }
         Commands::Clean { path } => {
             clean_command(&path)?;
